@@ -50,30 +50,33 @@ def window_has_events(rows, annotation, instance) -> bool:
     return any(r["stream"] == -1 and lo <= r["ts"] <= hi and r["dur"] > 0 and r["cat"] in ("cpu_op", "cuda_runtime", "cuda_driver") for r in rows)
 
 
-def dump_graph(g) -> Dict[str, Any]:
-    nodes = [[int(n.idx), int(n.ev_idx), int(n.ts), bool(n.is_start), bool(n.is_blocking)] for n in g.node_list]
+def dump_graph(g, k: int = 1) -> Dict[str, Any]:
+    """k: time scale of a quarter-microsecond case (framework.resolution); times and weights must be whole after scaling"""
+    T = int if k == 1 else (lambda x: fw.as_int(x * k))
+    nodes = [[int(n.idx), int(n.ev_idx), T(n.ts), bool(n.is_start), bool(n.is_blocking)] for n in g.node_list]
     edges = []
     for u, v in g.edges:
         e = g.edges[u, v]["object"]
-        edges.append([int(u), int(v), int(e.weight), int(g.edges[u, v]["weight"]), str(e.type.name), [int(e.begin), int(e.end)]])
+        edges.append([int(u), int(v), T(e.weight), T(g.edges[u, v]["weight"]), str(e.type.name), [int(e.begin), int(e.end)]])
     attrib = [[int(k[0]), int(k[1]), int(v)] for k, v in g.edge_to_event_map.items()]
     return {"nodes": nodes, "edges": sorted(edges), "attrib": sorted(attrib),
             "start_map": sorted([int(k), int(v)] for k, v in g.event_to_start_node_map.items()),
             "end_map": sorted([int(k), int(v)] for k, v in g.event_to_end_node_map.items()),
             "cp_nodes": [int(x) for x in g.critical_path_nodes],
             "cp_events": sorted(int(x) for x in g.critical_path_events_set),
-            "cp_edges": sorted([int(e.begin), int(e.end), int(e.weight), str(e.type.name)] for e in g.critical_path_edges_set),
+            "cp_edges": sorted([int(e.begin), int(e.end), T(e.weight), str(e.type.name)] for e in g.critical_path_edges_set),
             "graph_nodes": sorted(int(n) for n in g.nodes)}
 
 
-def dump_breakdown(g) -> Any:
+def dump_breakdown(g, k: int = 1) -> Any:
+    T = int if k == 1 else (lambda x: fw.as_int(x * k))
     df = g.get_critical_path_breakdown()
     if df is None:
         return None
     out = []
     for rec in df.to_dict("records"):
         ev = rec["event_idx"]
-        out.append({"event_idx": None if ev is None or (isinstance(ev, float) and math.isnan(ev)) else int(ev), "duration": int(rec["duration"]),
+        out.append({"event_idx": None if ev is None or (isinstance(ev, float) and math.isnan(ev)) else int(ev), "duration": T(rec["duration"]),
                     "type": str(rec["type"]), "bound_by": str(rec["bound_by"]),
                     "stream": None if isinstance(rec["stream"], float) and math.isnan(rec["stream"]) else int(rec["stream"]),
                     "s_name": None if not isinstance(rec["s_name"], str) else rec["s_name"]})
@@ -86,11 +89,13 @@ def run_cp(case: dict, d: str, zero_weight_env: bool = False) -> Dict[str, Any]:
         os.environ["CRITICAL_PATH_ADD_ZERO_WEIGHT_LAUNCH_EDGE"] = "1"
     else:
         os.environ.pop("CRITICAL_PATH_ADD_ZERO_WEIGHT_LAUNCH_EDGE", None)
-    ta, paths = fw.load_case(case, d)
+    k = fw.time_scale(case)
+    with fw.resolution(case):
+        ta, paths = fw.load_case_res(case, d)
     sym = ta.t.symbol_table.get_sym_table()
     rng = random.Random(case["params"]["pseed"])
     rank = rng.choice(sorted(ta.t.get_ranks()))
-    rows = fw.dump_frame(ta.t.get_trace(rank), sym)
+    rows = fw.dump_frame_res(case, ta.t.get_trace(rank), sym)
     annotation, instance = draw_window(rng, rows)
     res: Dict[str, Any] = {"rank": rank, "rows": rows, "annotation": annotation, "instance": instance, "zero_weight_env": zero_weight_env}
     if not window_has_events(rows, annotation, instance):
@@ -114,7 +119,7 @@ def run_cp(case: dict, d: str, zero_weight_env: bool = False) -> Dict[str, Any]:
             return res, ta, None
         g, ok = out
         res["success"] = bool(ok)
-        res["graph"] = dump_graph(g)
+        res["graph"] = dump_graph(g, k)
         res["clipped"] = sorted(int(i) for i in g.trace_df.index)
         return res, ta, g
     except Exception as e:
@@ -128,11 +133,13 @@ def run_cp(case: dict, d: str, zero_weight_env: bool = False) -> Dict[str, Any]:
         return res, ta, None
 
 
-def dump_host_traversal(ta, rank) -> List[List[List[int]]]:
+def dump_host_traversal(ta, rank, g=None) -> List[List[List[int]]]:
     """the depth-first traversal the graph builder performs over every host thread's call stack, recorded with the implementation's
     own CallStackGraph.dfs_traverse: per thread a list of [is_enter, event id, call-stack parent]"""
     from hta.common.call_stack import CallGraph, DeviceType
-    cg = CallGraph(ta.t, ranks=[rank])
+    # the call stacks of the events the analysis works on: the graph's own clipped trace (events of positive duration inside the
+    # window), as the builder is documented to use; a zero-duration host event is not part of it
+    cg = CallGraph(g.t if g is not None and hasattr(g, "t") else ta.t, ranks=[rank])
     threads = []
     for csg in cg.call_stacks:
         if csg.device_type != DeviceType.CPU:
